@@ -18,12 +18,14 @@ open Typedpy Typedpy.Wire
 def instOfJson (j : Json) : Except String Inst := do
   match ← valOfJson j with
   | .inst c attrs =>
-    pure { cls := c, attrs := attrs, instantiated := ← optBool j "inst" true, nones := ← strList j "nones" }
+    pure { cls := c, attrs := attrs, instantiated := ← optBool j "inst" true, nones := ← strList j "nones",
+           undef := ← optBool j "undef" false }
   | _ => throw "pairs: instance expected"
 
 def instToJson (x : Inst) : Json :=
   (valToJson (.inst x.cls x.attrs)).mergeObj
-    (Json.mkObj [("inst", .bool x.instantiated), ("nones", Json.arr (x.nones.map Json.str).toArray)])
+    (Json.mkObj [("inst", .bool x.instantiated), ("nones", Json.arr (x.nones.map Json.str).toArray),
+                 ("undef", .bool x.undef)])
 
 /-- canonical text of a value, used as the key of the `str()` oracle table -/
 def valKey (v : PyVal) : String := (valToJson v).compress
@@ -49,7 +51,7 @@ def renderOfJson (j : Json) : Except String Render := do
 
 /-- independent reading of "field-wise equality of the values read back": every declared field
     and every attribute either instance carries, through `getA` -/
-def fieldwise (defaults : Attrs) (fieldNames : List String) (a b : Inst) : Bool :=
+def fieldwise (defaults : EqCtx) (fieldNames : List String) (a b : Inst) : Bool :=
   (fieldNames ++ a.attrs.map (·.1) ++ b.attrs.map (·.1)).all
     (fun k => PyVal.pyEq (getA defaults a k) (getA defaults b k))
 
@@ -72,7 +74,7 @@ def stepsJson (c : ClassOpts) (fields : List (String × FieldDecl)) (O : Oracles
     let r := stepI Generated.wrappers O c fields x op
     Json.mkObj [("out", Mutate.outcomeJson r.2), ("state", instToJson r.1)] :: stepsJson c fields O r.1 rest
 
-def copyJson (R : Render) (defaults : Attrs) (x y : Inst) : Json :=
+def copyJson (R : Render) (defaults : EqCtx) (x y : Inst) : Json :=
   Json.mkObj [("state", instToJson y), ("eq", .bool (instEq defaults x y)),
               ("eqRev", .bool (instEq defaults y x)), ("key", .str (hashKey R y))]
 
@@ -81,7 +83,8 @@ def run (j : Json) : Except String Json := do
   let R ← renderOfJson j
   let cls ← declOfJson (← j.getObjVal? "cls")
   match cls with
-  | .struct c fields defaults =>
+  | .struct c fields defaults0 =>
+    let defaults : EqCtx := { defaults := defaults0, fields := fields.map (·.1) }
     let kws ← (← (← j.getObjVal? "kws").getArr?).toList.mapM kwOfJson
     let starts := kws.map (fun kw => resToJson (construct O cls kw))
     let insts ← (← (← j.getObjVal? "insts").getArr?).toList.mapM instOfJson
@@ -92,7 +95,7 @@ def run (j : Json) : Except String Json := do
     let keys := insts.map fun a => Json.str (hashKey R a)
     let wf := insts.map fun a => Json.bool (wellFormed O cls (.inst a.cls a.attrs))
     -- hypotheses of the theorems, evaluated on what the real code produced
-    let ok := insts.map fun a => Json.bool (okAttrs a.attrs && okAttrs defaults && keysDistinct (a.attrs.map (·.1)))
+    let ok := insts.map fun a => Json.bool (okAttrs a.attrs && okAttrs defaults0 && keysDistinct (a.attrs.map (·.1)))
     let same := insts.map fun a => Json.arr (insts.map fun b => Json.bool (sameSpellI a b)).toArray
     let ops ← match optField j "ops" with
       | none => pure []
